@@ -36,12 +36,13 @@ type Config struct {
 	MapOrder     string // "", "reverse", "swap:<k>"
 	Bounds       map[string]int
 	Deadline     time.Time
+	Merge        map[string]bool
 	SampleMax    int // translator validation: number of returning paths whose model is replayed natively
 	SampleSeed   int64
 }
 
 func defaultConfig() *Config {
-	return &Config{Unwind: 12, ListBound: 2, ByteBound: 8, StrConvMax: 8, MaxDepth: 80, MaxPaths: 20000, TimeoutMs: 20000, Solver: "z3-new", Bounds: map[string]int{}}
+	return &Config{Unwind: 12, ListBound: 2, ByteBound: 8, StrConvMax: 8, MaxDepth: 80, MaxPaths: 20000, TimeoutMs: 20000, Solver: "z3-new", Bounds: map[string]int{}, Merge: map[string]bool{}}
 }
 
 type symInfo struct {
@@ -148,6 +149,15 @@ type Exec struct {
 	monitorEpoch int
 	lockDepth    map[*Obj]int
 	pcLines      []string // assertions of the current path (for cross-solver replay)
+	mergeDepth   int
+	mergeEpoch   int
+	mergeConds   []string
+	mergeDefs    []string
+	mergeDecls   []string
+	mergeSyms    []symInfo
+	mergeSeq     int
+	freshPfx     string
+	summaries    map[string]*summary
 	ghost        map[string][]Value
 
 	// across paths
@@ -182,6 +192,7 @@ func NewExec(prog *ssa.Program, cfg *Config) *Exec {
 		initSaved: map[*Obj]Value{}, initMapSaved: map[*MapObj][2][]Value{}, ufDecls: map[string]string{}, fnCache: map[string]*ssa.Function{}}
 	e.intrinsics = buildIntrinsics()
 	e.loopCache = map[*ssa.Function]map[*ssa.BasicBlock]bool{}
+	e.summaries = map[string]*summary{}
 	e.declared = map[string]bool{}
 	e.lazyMemo = map[string]Value{}
 	e.stubs = map[string]int{}
@@ -245,6 +256,9 @@ func (e *Exec) declare(name, sort string) {
 	l := fmt.Sprintf("(declare-const %s %s)", name, sort)
 	e.send(l)
 	e.pcLines = append(e.pcLines, l)
+	if e.mergeDepth > 0 {
+		e.mergeDecls = append(e.mergeDecls, name+"\x00"+l)
+	}
 }
 
 func (e *Exec) declareInput(name, sort string) {
@@ -253,6 +267,9 @@ func (e *Exec) declareInput(name, sort string) {
 	}
 	e.declare(name, sort)
 	e.syms = append(e.syms, symInfo{name, sort})
+	if e.mergeDepth > 0 {
+		e.mergeSyms = append(e.mergeSyms, symInfo{name, sort})
+	}
 }
 
 func (e *Exec) declareFun(name, sig string) {
@@ -263,24 +280,40 @@ func (e *Exec) declareFun(name, sig string) {
 	l := fmt.Sprintf("(declare-fun %s %s)", name, sig)
 	e.send(l)
 	e.pcLines = append(e.pcLines, l)
+	if e.mergeDepth > 0 {
+		e.mergeDecls = append(e.mergeDecls, name+"\x00"+l)
+	}
 }
 
 func (e *Exec) assume(cond string) {
 	l := "(assert " + cond + ")"
 	e.send(l)
 	e.pcLines = append(e.pcLines, l)
+	if e.mergeDepth > 0 {
+		e.mergeDefs = append(e.mergeDefs, cond)
+	}
+}
+
+// assumeBranch adds a branch decision to the path condition.
+func (e *Exec) assumeBranch(cond string) {
+	l := "(assert " + cond + ")"
+	e.send(l)
+	e.pcLines = append(e.pcLines, l)
+	if e.mergeDepth > 0 {
+		e.mergeConds = append(e.mergeConds, cond)
+	}
 }
 
 func (e *Exec) fresh(prefix, sort string) string {
 	e.nfresh++
-	n := fmt.Sprintf("%s!%d", prefix, e.nfresh)
+	n := fmt.Sprintf("%s%s!%d", e.freshPfx, prefix, e.nfresh)
 	e.declare(n, sort)
 	return n
 }
 
 func (e *Exec) freshInput(prefix, sort string) string {
 	e.nfresh++
-	n := fmt.Sprintf("%s!%d", prefix, e.nfresh)
+	n := fmt.Sprintf("%s%s!%d", e.freshPfx, prefix, e.nfresh)
 	e.declareInput(n, sort)
 	return n
 }
@@ -316,9 +349,9 @@ func (e *Exec) branch(c *BoolV) bool {
 		d := e.script[e.pos]
 		e.pos++
 		if d {
-			e.assume(c.T)
+			e.assumeBranch(c.T)
 		} else {
-			e.assume("(not " + c.T + ")")
+			e.assumeBranch("(not " + c.T + ")")
 		}
 		return d
 	}
@@ -343,17 +376,17 @@ func (e *Exec) branch(c *BoolV) bool {
 		e.work = append(e.work, alt)
 		e.script = append(e.script, true)
 		e.pos++
-		e.assume(c.T)
+		e.assumeBranch(c.T)
 		return true
 	case tOK:
 		e.script = append(e.script, true)
 		e.pos++
-		e.assume(c.T)
+		e.assumeBranch(c.T)
 		return true
 	default:
 		e.script = append(e.script, false)
 		e.pos++
-		e.assume("(not " + c.T + ")")
+		e.assumeBranch("(not " + c.T + ")")
 		return false
 	}
 }
@@ -446,7 +479,9 @@ func (e *Exec) load(p *PtrV, site string) Value {
 	v := e.rawLoad(p)
 	if _, isLazy := v.(*LazyV); isLazy {
 		m := e.force(v)
-		e.storeRaw(p, m)
+		if e.mergeDepth == 0 {
+			e.storeRaw(p, m)
+		}
 		return m
 	}
 	if pz, ok := v.(*Poison); ok {
@@ -485,6 +520,9 @@ func (e *Exec) storeRaw(p *PtrV, nv Value) {
 func (e *Exec) store(p *PtrV, nv Value, site string) {
 	if p.O == nil {
 		panic(goPanic{msg: "nil pointer dereference (store)", site: site})
+	}
+	if e.mergeDepth > 0 && p.O.Born <= e.mergeEpoch {
+		panic(mergeAbort{"store to a pre-existing object"})
 	}
 	if e.monitorOn && p.O.Born <= e.monitorEpoch {
 		fn := ""
@@ -642,6 +680,11 @@ func (e *Exec) call(fn *ssa.Function, args []Value, bind []Value) Value {
 			return nil
 		}
 		e.inited[fn.Pkg] = true
+	}
+	if e.initMode == 0 && e.cfg.Merge[name] && len(fn.Blocks) > 0 {
+		if v, ok := e.mergeCall(fn, args, bind); ok {
+			return v
+		}
 	}
 	if len(fn.Blocks) == 0 {
 		if fn.Synthetic != "" && strings.Contains(fn.Synthetic, "wrapper") {
